@@ -4,6 +4,7 @@ import (
 	"go/ast"
 	"go/token"
 	"go/types"
+	"strings"
 
 	"golang.org/x/tools/go/packages"
 
@@ -22,6 +23,8 @@ type miniEval struct {
 	tuple   func(call *ast.CallExpr) ([]int64, bool) // results of a multi-value call
 	rng     func(x ast.Expr) ([]int64, bool)         // elements of a non-constant range operand
 	maps    map[string]map[int64]bool                // sets / maps held in plain variables, by key
+	dyn     func(x ast.Expr) string                  // dynamic type (last name component) of a type-switch operand
+	lens    map[string]bool                          // variables that stand for a slice, valued by its LENGTH
 	steps   int                                      // loop iterations executed (bounded)
 	unknown string
 	effects []string // assignments to anything that is not a plain variable, in program order
@@ -72,6 +75,12 @@ func (e *miniEval) expr(x ast.Expr) int64 {
 			return v
 		}
 		return e.fail("variable " + y.Name)
+	case *ast.IndexExpr:
+		// an element of a length-modelled slice is represented by its index
+		if e.lens[core.ExprStr(y.X)] {
+			return e.expr(y.Index)
+		}
+		return e.fail("index " + core.ExprStr(y))
 	case *ast.SelectorExpr:
 		if v, ok := e.env[core.ExprStr(y)]; ok {
 			return v
@@ -128,6 +137,19 @@ func (e *miniEval) expr(x ast.Expr) int64 {
 			if m, ok := e.maps[core.ExprStr(y.Args[0])]; ok {
 				return int64(len(m))
 			}
+			if e.lens[core.ExprStr(y.Args[0])] {
+				return e.env[core.ExprStr(y.Args[0])]
+			}
+		}
+		if core.ExprStr(y.Fun) == "append" && len(y.Args) >= 1 && e.lens[core.ExprStr(y.Args[0])] && !y.Ellipsis.IsValid() {
+			return e.env[core.ExprStr(y.Args[0])] + int64(len(y.Args)-1)
+		}
+		if core.ExprStr(y.Fun) == "make" && len(y.Args) >= 2 {
+			if t := core.TypeOf(e.pk, y.Args[0]); t != nil {
+				if _, isSlice := t.Underlying().(*types.Slice); isSlice {
+					return e.expr(y.Args[1])
+				}
+			}
 		}
 		// a conversion between integer types
 		if tv, ok := e.pk.TypesInfo.Types[y.Fun]; ok && tv.IsType() && len(y.Args) == 1 {
@@ -159,6 +181,15 @@ func (e *miniEval) assign(lhs ast.Expr, tok token.Token, rhs ast.Expr) {
 	}
 	if id.Name == "_" {
 		return
+	}
+	// a slice is represented by its length
+	if t := core.TypeOf(e.pk, rhs); t != nil {
+		if _, isSlice := t.Underlying().(*types.Slice); isSlice && (tok == token.DEFINE || tok == token.ASSIGN) {
+			if e.lens == nil {
+				e.lens = map[string]bool{}
+			}
+			e.lens[id.Name] = true
+		}
 	}
 	// a fresh map
 	if call, isC := ast.Unparen(rhs).(*ast.CallExpr); isC && core.ExprStr(call.Fun) == "make" && len(call.Args) >= 1 {
@@ -206,6 +237,16 @@ func (e *miniEval) run(stmts []ast.Stmt) (status int, rets []int64) {
 						e.env[n.Name] = e.expr(vs.Values[i])
 					} else {
 						e.env[n.Name] = 0
+					}
+					if vs.Type != nil {
+						if t := core.TypeOf(e.pk, vs.Type); t != nil {
+							if _, isSlice := t.Underlying().(*types.Slice); isSlice {
+								if e.lens == nil {
+									e.lens = map[string]bool{}
+								}
+								e.lens[n.Name] = true
+							}
+						}
 					}
 				}
 			}
@@ -348,6 +389,48 @@ func (e *miniEval) run(stmts []ast.Stmt) (status int, rets []int64) {
 					return st, r
 				}
 			}
+		case *ast.TypeSwitchStmt:
+			if e.dyn == nil {
+				e.fail("type switch")
+				break
+			}
+			var operand ast.Expr
+			switch a := s.Assign.(type) {
+			case *ast.AssignStmt:
+				if ta, ok := a.Rhs[0].(*ast.TypeAssertExpr); ok {
+					operand = ta.X
+				}
+			case *ast.ExprStmt:
+				if ta, ok := a.X.(*ast.TypeAssertExpr); ok {
+					operand = ta.X
+				}
+			}
+			name := e.dyn(operand)
+			var chosen, def *ast.CaseClause
+			for _, cc := range s.Body.List {
+				cl := cc.(*ast.CaseClause)
+				if cl.List == nil {
+					def = cl
+					continue
+				}
+				for _, tx := range cl.List {
+					ts := core.ExprStr(tx)
+					if ts == name || strings.HasSuffix(ts, "."+name) {
+						chosen = cl
+					}
+				}
+			}
+			if chosen == nil {
+				chosen = def
+			}
+			if chosen != nil {
+				st, r := e.run(chosen.Body)
+				switch st {
+				case miniBreak, miniFall:
+				default:
+					return st, r
+				}
+			}
 		case *ast.ReturnStmt:
 			var out []int64
 			for _, r := range s.Results {
@@ -383,8 +466,8 @@ func (e *miniEval) run(stmts []ast.Stmt) (status int, rets []int64) {
 				}
 			}
 		case *ast.RangeStmt:
-			if e.rng != nil {
-				if vals, ok := e.rng(s.X); ok {
+			if vals, ok := e.rangeElems(s.X); ok {
+				{
 					stop := false
 					for i, v := range vals {
 						if id, ok := s.Key.(*ast.Ident); ok && id.Name != "_" {
@@ -498,4 +581,23 @@ func (e *miniEval) bindElem(name string, el ast.Expr) {
 			e.fail("struct element " + core.ExprStr(el))
 		}
 	}
+}
+
+// rangeElems: the elements a range statement visits when its operand is supplied by the rule's
+// range hook or is a length-modelled slice (elements are represented by their indexes).
+func (e *miniEval) rangeElems(x ast.Expr) ([]int64, bool) {
+	if e.rng != nil {
+		if vals, ok := e.rng(x); ok {
+			return vals, true
+		}
+	}
+	if e.lens[core.ExprStr(x)] {
+		n := e.env[core.ExprStr(x)]
+		out := make([]int64, 0, n)
+		for i := int64(0); i < n; i++ {
+			out = append(out, i)
+		}
+		return out, true
+	}
+	return nil, false
 }
